@@ -15,8 +15,10 @@ ANCHORS = ['numdifftools.extrapolation:Richardson._estimate_error', 'numdifftool
            'numdifftools.limits:_Limit._add_error_to_outliers', 'numdifftools.limits:_Limit._get_arg_min',
            'numdifftools.limits:_Limit._get_best_estimate', 'numdifftools.core:Derivative.__call__',
            'numdifftools.core:Jacobian._derivative_nonzero_order', 'numdifftools.core:Gradient.__call__']
+RATE_CAPS = {'selector-picked-rounding-dominated-step': ('hostile_tail_elements_in_scope', 0.06, 100)}
 K_EST = 300.0
 C_FLOOR = 10.0
+CAP_E = 3.0e4       # 10 x the C01 constant A: the floor never exceeds CAP_E * E*
 MIN_COUNTERS = dict(quick={'honesty_asserted:Derivative': 1200, 'honesty_asserted:Gradient': 150,
                            'honesty_asserted:Jacobian': 150, 'honesty_asserted:Hessdiag': 150,
                            'honesty_asserted:Hessian': 150, 'record_asserted': 3000,
@@ -30,7 +32,8 @@ RULE = ('Derivative cases as in C01 (random expression programs x points x every
 ASSUMPTIONS = ['honest means |value - exact| <= K * error_estimate + C_f * eps * Lambda * S(final_step), K = 300, C_f = 10: the floor is '
                'the rounding a difference quotient cannot avoid at the step the library itself reports (S(rho) = n! max_k c^_k '
                'rho^(k-n) with the program\'s evaluation noise in c^_0, Lambda = observed sum|w_rule| * sum|w_richardson|); for the '
-               'cancellation-free schemes S is taken at the natural radius min(1, rho_valid)',
+               'cancellation-free schemes S is taken at the natural radius min(1, rho_valid); the floor is capped at 3e4 E* (E* = the C01 '
+               'envelope of the best window) so that a reported step at which rounding swamps everything excuses nothing',
                'same scope as C01 (real-analytic on the probed segment, a valid window exists, f finite)',
                'record contract is exact: f_value bit-identical to the first evaluation at x, error_estimate >= 0 and finite where the '
                'value is finite, min|steps| <= |final_step| <= max|steps| of the yielded steps, one estimate/step per result entry, '
@@ -73,7 +76,7 @@ def cases(rng, tier, shard, nshards):
                        g=[int(v) for v in rng.integers(0, len(G_PROGS), size=dim)],
                        x=[float(np.round(v, 4)) for v in rng.uniform(-2, 2, size=dim)],
                        m=int(rng.integers(1, 4)), beta=float(np.round(rng.uniform(-2, 2), 3)),
-                       seed=int(rng.integers(0, 2 ** 31)), step=D.draw_step_spec(rng, method))
+                       seed=int(rng.integers(0, 2 ** 31)), step=D.draw_step_spec(rng, method, 2 if cls in ('Hessdiag', 'Hessian') else 1))
             continue
         if k < ncells:
             method, n, order = D.draw_config(rng, k)
@@ -196,11 +199,18 @@ def run_derivative(case, ctx):
         rho_f = m.rad * fs_e
         if m.cancel_free:
             rho_f = max(rho_f, min(1.0, m.rho_valid))
-        floor = EPS * m.lam * m.S_at(rho_f)
+        # the rounding floor at the reported step, capped by what the best window could have achieved: a step at which
+        # rounding swamps everything does not excuse a (near) zero estimate next to a wrong value
+        floor_uncapped = EPS * m.lam * m.S_at(rho_f)
+        floor = min(floor_uncapped, CAP_E * m.E / C_FLOOR)
+        if case['step'].get('hostile'):
+            ctx.count('hostile_tail_elements_in_scope')
         steps_all = res['obs'].get('steps') or []
         honest(ctx, 'Derivative', m.err, est_e, floor, ('Derivative', method, n, order, prog),
                dict(cls='Derivative', method=method, n=n, order=order, full_window=bool(m.full_window),
                     chosen_step_beyond_validity_radius=bool(m.chosen_beyond_validity),
+                    majority_of_table_rows_collapsed=bool(m.frac_collapsed >= 0.5),
+                    error_explained_by_rounding_at_chosen_step=bool(m.err <= 10 * C_FLOOR * floor_uncapped),
                     operators=sorted(X.operators(tree)), step_kind=case['step']['kind']),
                dict(program=prog, x=x_e, value=complex(v), exact=complex(m.exact), final_step=fs_e, W=m.W,
                     nsteps=m.nsteps, rho_valid=m.rho_valid, lam=m.lam))
@@ -305,7 +315,9 @@ def run_multi(case, ctx):
         floor = EPS * lam * math.factorial(nder) * fmag / (max(h, 1.0) if cancel_free else h) ** nder
         honest(ctx, cls, err, float(est[ix]), floor, (cls, method, case['order'], tuple(case['g']), ix),
                dict(cls=cls, method=method, n=nder, order=case['order'], full_window=True,
-                    chosen_step_beyond_validity_radius=False,
+                    # every g_k of the family is analytic within radius >= 1 of a real point (nearest singularities +-i,
+                    # +-i pi/2); a reported final step above 1 lies beyond the validity radius of its Taylor series
+                    chosen_step_beyond_validity_radius=bool(h > 1.0),
                     operators=sorted(set().union(*[X.operators(t) for t in gtrees])), step_kind=case['step']['kind']),
                dict(program=[X.to_str(t) for t in gtrees], x=case['x'], value=v, exact=ex, final_step=h, entry=list(ix)))
     if len(ctx.samples) < 5:
@@ -332,6 +344,8 @@ def classify(wit):
         return 'estimate-without-extrapolation-is-a-placeholder'
     if f.get('chosen_step_beyond_validity_radius'):
         return 'selector-picked-steps-beyond-validity-radius'
+    if f.get('cls') == 'Derivative' and f.get('error_explained_by_rounding_at_chosen_step'):
+        return 'selector-picked-rounding-dominated-step'
     return None
 
 
